@@ -427,6 +427,9 @@ func (w *World) Exec(in Input) Output {
 
 	case OpSnapshot:
 		out.Cls = w.SnapshotOf(cm)
+		if !judgeHashIndex {
+			out.Cls = coreView(out.Cls)
+		}
 	}
 	return out
 }
